@@ -97,8 +97,13 @@ impl Check for Local {
         let mut worst = 0.0f64;
         for (i, (t, y)) in out.items.iter().enumerate() {
             let h = t - prev.0;
-            if !(h > 0.0) || y.len() != prev.1.len() || y.iter().any(|v| !v.is_finite()) {
-                break; // malformed paths are C01's business
+            if y.len() != prev.1.len() || y.iter().any(|v| !v.is_finite()) {
+                break; // malformed states are C01's business
+            }
+            if !(h > 0.0) {
+                // non-increasing times are C01's business too, but the pairs after them are still judged
+                prev = (*t, y.clone());
+                continue;
             }
             if h >= dtmax * (1.0 - 1e-9) {
                 capped += 1;
